@@ -111,7 +111,7 @@ func c10sched(c *core.Ctx) {
 	}
 	// (2) a connection is cut and its successor connects at once
 	for _, v := range []struct {
-		name             string
+		name               string
 		oldClean, newClean bool
 	}{{"persistent -> persistent", false, false}, {"persistent -> clean", false, true}, {"clean -> persistent", true, false}, {"clean -> clean", true, true}} {
 		v := v
